@@ -189,7 +189,7 @@ func c11Run(rc *RunCtx) *Violation {
 			return Step{K: "tick", A: r.Intn(len(tickDur))}, true
 		default:
 			sec := []int{0, 0, 6, 3}[r.Intn(4)]
-			return Step{K: "smprestart", C: sec}, true
+			return Step{K: "smprestart", B: r.Intn(2), C: sec, D: r.Intn(6)}, true
 		}
 	}
 	closeRun := func() *Violation {
@@ -232,9 +232,23 @@ func c11Run(rc *RunCtx) *Violation {
 				continue
 			}
 			i := run.init
+			oldRun, oldAsk := run, ask
+			if s.D%3 == 1 {
+				// the randomness source fails while the new request is being made
+				w.P[i].Rand.FailAt, w.P[i].Rand.Mode = w.P[i].Rand.reads+s.B%2, 1+s.D%4
+				w.Fault("rand-read-fails-in-restart")
+			}
 			run = &smpRun{init: i, secI: s.C, startCall: w.Seq}
 			ask = [2]bool{}
 			r := w.P[i].SMPStartRaw("", secretBuf(i, s.C))
+			w.P[i].Rand.FailAt = -1
+			if r.Err != "" && len(r.Out) == 0 {
+				// the call failed and sent nothing: it did not happen. The run that was going on goes
+				// on - with the secret it was started with
+				run, ask = oldRun, oldAsk
+				rc.Probe("restart_failed_old_run_continues")
+				break
+			}
 			w.Enqueue(w.P[i], r)
 			restarts++
 			pendingRestart = true
